@@ -1,6 +1,6 @@
 (** * C03, part pflat -- clear hits are reported (there is a single crossing for flat primitives), clear misses are not.
     Exact tier.  "Clear" = outside the code's tolerance bands: |a| >= 100 eps and t > 100 eps (triangle),
-    |n.d| >= eps and t >= 0 (plane, disk); the float <-> real band (relative margin 1e-6) is sampled by the oracle. *)
+    |n.d| >= eps and t > 0 (plane, disk; t = 0 was accepted before fix fb7e7b9); the float <-> real band (relative margin 1e-6) is sampled by the oracle. *)
 From Coq Require Import ZArith Reals List.
 From G3 Require Import Model.Num Model.Base Model.Vec Model.BBox Model.Transform Model.Hit Model.Segment Model.Triangle
   Model.Plane Model.Disk Model.Distant
@@ -35,11 +35,11 @@ Proof. exact tri_intersect_miss. Qed.
 
 (** ** plane *)
 Theorem C03_flat_plane_hit_reported : forall (pl : Plane R) (ray : Ray R) (t : R),
-  neps <= Rabs (plane_den pl ray) -> vdot (pl_normal pl) (ray_project ray t) = pl_d pl -> 0 <= t ->
+  neps <= Rabs (plane_den pl ray) -> vdot (pl_normal pl) (ray_project ray t) = pl_d pl -> 0 < t ->
   plane_intersect pl ray = Some t.
 Proof. exact plane_intersect_complete. Qed.
 Theorem C03_flat_plane_behind_not_reported : forall (pl : Plane R) (ray : Ray R) (t : R),
-  vdot (pl_normal pl) (ray_project ray t) = pl_d pl -> t < 0 -> plane_intersect pl ray = None.
+  vdot (pl_normal pl) (ray_project ray t) = pl_d pl -> t <= 0 -> plane_intersect pl ray = None.
 Proof. exact plane_intersect_behind. Qed.
 Theorem C03_flat_plane_parallel_band : forall (pl : Plane R) (ray : Ray R),
   Rabs (plane_den pl ray) < neps -> plane_intersect pl ray = None.
@@ -47,12 +47,12 @@ Proof. exact plane_intersect_parallel. Qed.
 
 (** ** disk / annulus / sector *)
 Theorem C03_flat_disk_hit_reported : forall (d : Disk R) (ray : Ray R) (t : R), disk_wf d ->
-  neps <= Rabs (vdot (dk_normal d) (rdir ray)) -> 0 <= t -> on_disk d (ray_project ray t) ->
+  neps <= Rabs (vdot (dk_normal d) (rdir ray)) -> 0 < t -> on_disk d (ray_project ray t) ->
   disk_basic_intersection d ray = Some (ray_project ray t, disk_phi d (ray_project ray t)).
 Proof. exact disk_basic_complete. Qed.
 Theorem C03_flat_disk_miss_not_reported : forall (d : Disk R) (ray : Ray R) (t : R), disk_wf d ->
   vdot (dk_normal d) (vsub (ray_project ray t) (dk_centre d)) = 0 ->
-  (t < 0 \/ dk_radius d * dk_radius d < vlen2 (vsub (ray_project ray t) (dk_centre d)) \/
+  (t <= 0 \/ dk_radius d * dk_radius d < vlen2 (vsub (ray_project ray t) (dk_centre d)) \/
    vlen2 (vsub (ray_project ray t) (dk_centre d)) < dk_inner d * dk_inner d \/ dk_phi_max d < disk_phi d (ray_project ray t)) ->
   disk_basic_intersection d ray = None.
 Proof. exact disk_basic_miss. Qed.
@@ -70,7 +70,7 @@ Proof. exact disk_phi_of_point. Qed.
 Theorem C03_flat_disk_transformed_hit_reported : forall (d : Disk R) (t : T) (ray : Ray R) (s : R),
   disk_wf d -> dk_transform d = Some t -> Inv t ->
   let r' := fst (fst (tr_inv_ray t ray)) in
-  neps <= Rabs (vdot (dk_normal d) (rdir r')) -> 0 <= s -> on_disk d (ray_project r' s) ->
+  neps <= Rabs (vdot (dk_normal d) (rdir r')) -> 0 < s -> on_disk d (ray_project r' s) ->
   disk_simple_intersect d ray = Some (tr_pt t (ray_project r' s)) /\
   exists dt, 0 <= dt /\ tr_pt t (ray_project r' s) = ray_project ray (dt + s).
 Proof. exact disk_simple_intersect_complete. Qed.
